@@ -391,4 +391,87 @@ class Bundled(Component):
         ctx.label("bundled:%s:%s" % (case["data"], m))
 
 
-COMPONENTS = [LawsRandom(), E1Batch(), Bundled()]
+@st.composite
+def large_law_case(draw, tier):
+    from .c02 import large_case
+    case = draw(large_case(tier))
+    case["tgrid2"] = draw(st.integers(1, 100))
+    return case
+
+
+class LargeLaws(Component):
+    """The three laws on the larger synthetic tables (40-400 rows, long values, Zipf
+    vocabulary, n_jobs up to 24)."""
+    name = "large"
+    kind = "hyp"
+    rule = "refinement runs non-empty and different, or both partition parts non-empty"
+
+    def examples(self, tier):
+        return 8 if tier == "quick" else 50
+
+    def strategy(self, tier):
+        return large_law_case(tier)
+
+    def check(self, case, ctx):
+        from .c02 import large_tables
+        L, R, lv, rv = large_tables(case["seed"], case["nl"], case["nr"], case["vocab"],
+                                    case["maxtok"])
+        m = case["measure"]
+        nj = case["n_jobs"]
+        lsets = dict(zip(L["key"].tolist(), [None if v is None else frozenset(v.split())
+                                             for v in lv]))
+        rsets = dict(zip(R["key"].tolist(), [None if v is None else frozenset(v.split())
+                                             for v in rv]))
+        cache = {}
+
+        def run(thr, op, sw):
+            k = (thr, op, sw)
+            if k not in cache:
+                tok = mk_tok({"kind": "ws", "return_set": True})
+                a, b = (R, L) if sw else (L, R)
+                with calls.backend(nj):
+                    if m == "OVERLAP":
+                        df = ctx.lib(JOINS[m], a, b, "key", "key", "val", "val", tok, thr, op,
+                                     False, None, None, "l_", "r_", True, nj, False)
+                    else:
+                        df = ctx.lib(JOINS[m], a, b, "key", "key", "val", "val", tok, thr, op,
+                                     True, False, None, None, "l_", "r_", True, nj, False)
+                cache[k] = result_map(df, "l_key", "r_key")
+            return cache[k]
+
+        def excluded(thr, op):
+            ex = set()
+            for (t2, o2, sw), res in list(cache.items()):
+                if res is None:
+                    continue
+                for k in res:
+                    kk = (k[1], k[0]) if sw else k
+                    x, y = lsets.get(kk[0]), rsets.get(kk[1])
+                    if x is None or y is None:
+                        continue
+                    if not x and not y:
+                        ex.add(kk)
+                    elif x and y and oracle.classify(m, len(x), len(y), len(x & y), thr,
+                                                     op) == "straddle":
+                        ex.add(kk)
+            return ex
+
+        def thr_of(g):
+            return max(1, g // 12) if m == "OVERLAP" else g / 100.0
+
+        t1, t2 = thr_of(case["tgrid"]), thr_of(case["tgrid2"])
+        for thr in (t1, t2):
+            for op in (">=", ">", "="):
+                run(thr, op, False)
+        run(t1, ">=", True)
+        laws = Laws(ctx, m, run, excluded, "%s_join on %dx%d synthetic rows (seed %d, n_jobs=%d)"
+                    % (m.lower(), case["nl"], case["nr"], case["seed"], nj))
+        laws.transposition(t1, ">=")
+        a = laws.refinement(min(t1, t2), max(t1, t2)) if t1 != t2 else False
+        b = laws.partition(t1)
+        c = laws.partition(t2)
+        ctx.nontrivial(bool(a) or bool(b) or bool(c))
+        ctx.label("large:" + m)
+
+
+COMPONENTS = [LawsRandom(), E1Batch(), Bundled(), LargeLaws()]
